@@ -98,6 +98,21 @@ def resolve(ctx):
                     seen.add("thread")
         ctx.check("daemon" in seen, f, "%s returns 1 inside a daemonic process (no grand-children)" % q, "%s lost its daemon guard" % q)
         ctx.check("thread" in seen, f, "%s returns 1 in a non-main thread below nesting level 0" % q, "%s lost its non-main-thread guard" % q)
+        # ... and nothing else is answered before the guards were passed: every path to a return that is not `1` (the
+        # requested, or the resolved negative, n_jobs, or the base class's answer) takes the FALSE edge of both guards
+        guards = [n for n in nodes_of_type(f, ast.If) if unparse(n.test) in ("mp.current_process().daemon", "not (self.in_main_thread() or self.nesting_level == 0)")]
+        others = [r for r in nodes_of_type(f, ast.Return) if not is_const(r.value, 1)]
+        for gd in guards:
+            false_edges = set()
+            for nid in g.nodes_of(gd):
+                for (t_, lab) in g.nodes[nid].succ:
+                    if lab == "F":
+                        false_edges.add((nid, t_, lab))
+            reach = g.reach([g.entry], avoid_edges=false_edges)
+            leak = [r for r in others if set(g.nodes_of(r)) & reach]
+            ctx.check(not leak, leak[0] if leak else gd, "%s: a value other than 1 is returned only after `%s` was found false" % (q, unparse(gd.test, 60)),
+                      "%s: `%s` can be reached without passing the guard `%s` (e.g. for a negative n_jobs tested earlier in the chain): worker processes are started from a nested / daemonic context" % (
+                          q, unparse(leak[0], 40) if leak else "", unparse(gd.test, 60)))
 
 
 def seq1(ctx):
@@ -342,3 +357,5 @@ def run(ctx):
     ctx.run("C15.NEST", "R-TABLE", nest)
     from . import c17
     ctx.run("C17.HINT", "R-ORDER", c17.hint)
+    from . import par as _par
+    ctx.run("C16.GENEXIT", "R-ORDER", _par.c16_genexit)
